@@ -189,7 +189,10 @@ func (node *redisNode) shutdown() {
 func (node *redisNode) do(cmd string, args ...interface{}) (interface{}, error) {
 	conn, err := node.getConn()
 	if err != nil {
-		return fmt.Sprintf("ECONNTIMEOUT: %v", err), nil
+		// the node could not be reached, so it has not executed the command: that is an
+		// error, not a reply (a plain string is taken for the command's answer, e.g. by the
+		// in-place retry of a MOVED command at a node the client cannot connect to)
+		return nil, fmt.Errorf("ECONNTIMEOUT: %w", err)
 	}
 
 	if err = conn.send(cmd, args...); err != nil {
